@@ -18,7 +18,16 @@ Node kinds (fresh node = cost 1, back-reference and repeated use of the same var
   ('mks', x, y)  ('getf', f, s)  struct make / get field
   ('mka', x...)                  array literal of 1..2 ints
   ('map', bid, arr, body)  ('filter', bid, arr, cond)  ('fold', bacc, bval, arr, zero, body)  ('len', arr)
+Aggregation sub-grammar (opts['agg'] = 'agg' | 'scan'): the program is the query of a table aggregation (or the new
+row field of a table map with scans) over a range table.  Two pseudo binders: ROW (the row's idx field, type int,
+visible in the aggregation context, and also in the result context of a scan program) and AGG (the capability to
+aggregate, visible in the result context but not inside aggregated arguments or lambdas).
+  ('aggmax', x)                  hl.agg.max / hl.scan.max of x, x built in the aggregation context
+  ('aggfilter', c, r)            hl.agg.filter / hl.scan.filter, c in the aggregation context, r contains an aggregation
 """
+
+ROW = -1
+AGG = -2
 
 VALUE_TYPES = ('i', 'a', 's')
 
@@ -29,26 +38,35 @@ class _St:
     __slots__ = ('done', 'nbind', 'nlit', 'varnodes')
 
     def __init__(self, done=(), nlit=0, nbind=0, varnodes=()):
-        self.done = done          # tuple of (type, frozenset(free binder ids)) per completed fresh node
+        self.done = done          # tuple of (type, frozenset(free binder ids), is_literal) per completed fresh node
         self.nlit = nlit
         self.nbind = nbind
         self.varnodes = varnodes  # binder ids whose Ref node already exists
 
 
-def _complete(st, typ, free, nlit=None, nbind=None, varnodes=None):
-    return _St(st.done + ((typ, free),), st.nlit if nlit is None else nlit, st.nbind if nbind is None else nbind,
-               st.varnodes if varnodes is None else varnodes)
+def _complete(st, typ, free, nlit=None, lit=False):
+    return _St(st.done + ((typ, free, lit),), st.nlit if nlit is None else nlit, st.nbind, st.varnodes)
 
 
-def gen(typ, budget, scope, st, opts):
+def _binders(st, n):
+    return _St(st.done, st.nlit, st.nbind + n, st.varnodes)
+
+
+def _all(it):
+    return it
+
+
+def gen(typ, budget, scope, st, opts, shard=_all):
     """Yield (term, cost, free, st') for every way to fill a position of type `typ` with <= budget fresh nodes.
 
-    scope: tuple of (bid, type) binders visible here.
+    scope: tuple of (bid, type) binders visible here.  `shard` filters the alternatives of the FIRST child of
+    this node (used only at the root, to split the space between worker processes).
     """
     inscope = frozenset(b for b, _ in scope)
+    share_lits = opts['share_lits']
     # back-references (cost 0)
-    for k, (t, free) in enumerate(st.done):
-        if t == typ and free <= inscope:
+    for k, (t, free, lit) in enumerate(st.done):
+        if t == typ and free <= inscope and (share_lits or not lit):
             yield ('ref', k), 0, free, st
     # variables
     for bid, t in scope:
@@ -61,47 +79,62 @@ def gen(typ, budget, scope, st, opts):
     if budget < 1:
         return
     b1 = budget - 1
+    lam_scope = tuple(x for x in scope if x[0] != AGG)
     if typ == 'i':
-        yield ('lit', st.nlit), 1, frozenset(), _complete(st, 'i', frozenset(), nlit=st.nlit + 1)
-        for op in ('add', 'mul'):
-            for x, cx, fx, s1 in gen('i', b1, scope, st, opts):
-                for y, cy, fy, s2 in gen('i', b1 - cx, scope, s1, opts):
-                    f = fx | fy
+        yield ('lit', st.nlit), 1, frozenset(), _complete(st, 'i', frozenset(), nlit=st.nlit + 1, lit=True)
+        for x, cx, fx, s1 in shard(gen('i', b1, scope, st, opts)):
+            for y, cy, fy, s2 in gen('i', b1 - cx, scope, s1, opts):
+                f = fx | fy
+                for op in opts['ops']:
                     yield (op, x, y), 1 + cx + cy, f, _complete(s2, 'i', f)
-        for s, cs, fs, s1 in gen('s', b1, scope, st, opts):
-            for fld in ('a', 'b'):
-                yield ('getf', fld, s), 1 + cs, fs, _complete(s1, 'i', fs)
-        for a, ca, fa, s1 in gen('a', b1, scope, st, opts):
-            yield ('len', a), 1 + ca, fa, _complete(s1, 'i', fa)
-        # fold(arr, zero, (acc, val) -> body)
-        for a, ca, fa, s1 in gen('a', b1, scope, st, opts):
-            for z, cz, fz, s2 in gen('i', b1 - ca, scope, s1, opts):
-                bacc, bval = s2.nbind, s2.nbind + 1
-                s3 = _St(s2.done, s2.nlit, s2.nbind + 2, s2.varnodes)
-                sc = scope + ((bacc, 'i'), (bval, 'i'))
-                for body, cb, fb, s4 in gen('i', b1 - ca - cz, sc, s3, opts):
-                    f = fa | fz | (fb - {bacc, bval})
-                    yield ('fold', bacc, bval, a, z, body), 1 + ca + cz + cb, f, _complete(s4, 'i', f)
+        if opts['structs']:
+            for s, cs, fs, s1 in shard(gen('s', b1, scope, st, opts)):
+                for fld in ('a', 'b'):
+                    yield ('getf', fld, s), 1 + cs, fs, _complete(s1, 'i', fs)
+        if opts['arrays']:
+            for a, ca, fa, s1 in shard(gen('a', b1, scope, st, opts)):
+                yield ('len', a), 1 + ca, fa, _complete(s1, 'i', fa)
+                # fold(arr, zero, (acc, val) -> body)
+                for z, cz, fz, s2 in gen('i', b1 - ca, scope, s1, opts):
+                    bacc, bval = s2.nbind, s2.nbind + 1
+                    s3 = _binders(s2, 2)
+                    sc = lam_scope + ((bacc, 'i'), (bval, 'i'))
+                    for body, cb, fb, s4 in gen('i', b1 - ca - cz, sc, s3, opts):
+                        f = fa | fz | (fb - {bacc, bval})
+                        yield ('fold', bacc, bval, a, z, body), 1 + ca + cz + cb, f, _complete(s4, 'i', f)
+        if opts['agg'] and AGG in inscope:
+            agg_scope = ((ROW, 'i'),)
+            for x, cx, fx, s1 in shard(gen('i', b1, agg_scope, st, opts)):
+                f = frozenset((AGG,))
+                yield ('aggmax', x), 1 + cx, f, _complete(s1, 'i', f)
+            for c, cc, fc, s1 in shard(gen('b', b1, agg_scope, st, opts)):
+                for r, cr, fr, s2 in gen('i', b1 - cc, scope, s1, opts):
+                    if AGG in fr:
+                        yield ('aggfilter', c, r), 1 + cc + cr, fr, _complete(s2, 'i', fr)
     elif typ == 'b':
-        for x, cx, fx, s1 in gen('i', b1, scope, st, opts):
+        for x, cx, fx, s1 in shard(gen('i', b1, scope, st, opts)):
             for y, cy, fy, s2 in gen('i', b1 - cx, scope, s1, opts):
                 f = fx | fy
                 yield ('lt', x, y), 1 + cx + cy, f, _complete(s2, 'b', f)
     elif typ == 's':
-        for x, cx, fx, s1 in gen('i', b1, scope, st, opts):
+        if not opts['structs']:
+            return
+        for x, cx, fx, s1 in shard(gen('i', b1, scope, st, opts)):
             for y, cy, fy, s2 in gen('i', b1 - cx, scope, s1, opts):
                 f = fx | fy
                 yield ('mks', x, y), 1 + cx + cy, f, _complete(s2, 's', f)
     elif typ == 'a':
-        for x, cx, fx, s1 in gen('i', b1, scope, st, opts):
+        if not opts['arrays']:
+            return
+        for x, cx, fx, s1 in shard(gen('i', b1, scope, st, opts)):
             yield ('mka', x), 1 + cx, fx, _complete(s1, 'a', fx)
             for y, cy, fy, s2 in gen('i', b1 - cx, scope, s1, opts):
                 f = fx | fy
                 yield ('mka', x, y), 1 + cx + cy, f, _complete(s2, 'a', f)
-        for a, ca, fa, s1 in gen('a', b1, scope, st, opts):
+        for a, ca, fa, s1 in shard(gen('a', b1, scope, st, opts)):
             bid = s1.nbind
-            s2 = _St(s1.done, s1.nlit, s1.nbind + 1, s1.varnodes)
-            sc = scope + ((bid, 'i'),)
+            s2 = _binders(s1, 1)
+            sc = lam_scope + ((bid, 'i'),)
             for body, cb, fb, s3 in gen('i', b1 - ca, sc, s2, opts):
                 f = fa | (fb - {bid})
                 yield ('map', bid, a, body), 1 + ca + cb, f, _complete(s3, 'a', f)
@@ -112,32 +145,54 @@ def gen(typ, budget, scope, st, opts):
         raise AssertionError(typ)
     if typ in VALUE_TYPES:
         if typ in opts['if_types']:
-            for c, cc, fc, s1 in gen('b', b1, scope, st, opts):
+            for c, cc, fc, s1 in shard(gen('b', b1, scope, st, opts)):
                 for x, cx, fx, s2 in gen(typ, b1 - cc, scope, s1, opts):
                     for y, cy, fy, s3 in gen(typ, b1 - cc - cx, scope, s2, opts):
                         f = fc | fx | fy
                         yield ('if', typ, c, x, y), 1 + cc + cx + cy, f, _complete(s3, typ, f)
         if typ in opts['let_body_types']:
             for tv in opts['let_value_types']:
-                for v, cv, fv, s1 in gen(tv, b1, scope, st, opts):
+                for v, cv, fv, s1 in shard(gen(tv, b1, scope, st, opts)):
                     bid = s1.nbind
-                    s2 = _St(s1.done, s1.nlit, s1.nbind + 1, s1.varnodes)
+                    s2 = _binders(s1, 1)
                     sc = scope + ((bid, tv),)
                     for body, cb, fb, s3 in gen(typ, b1 - cv, sc, s2, opts):
                         f = fv | (fb - {bid})
                         yield ('let', tv, typ, bid, v, body), 1 + cv + cb, f, _complete(s3, typ, f)
 
 
-DEFAULT_OPTS = {'if_types': ('i', 'a', 's'), 'let_body_types': ('i', 'a', 's'), 'let_value_types': ('i', 'a', 's')}
+DEFAULT_OPTS = {'if_types': ('i', 'a', 's'), 'let_body_types': ('i', 'a', 's'), 'let_value_types': ('i', 'a', 's'),
+                'ops': ('add', 'mul'), 'share_lits': True, 'arrays': True, 'structs': True, 'agg': None}
 
 
-def programs(size, root_types=VALUE_TYPES, opts=None):
-    """All DAGs with exactly `size` fresh nodes, as (root_type, term) in a fixed order."""
+def root_scope(opts):
+    if opts['agg'] == 'agg':
+        return ((AGG, '-'),)
+    if opts['agg'] == 'scan':
+        return ((AGG, '-'), (ROW, 'i'))
+    return ()
+
+
+def programs(size, root_types=VALUE_TYPES, opts=None, shard=0, nshards=1):
+    """All DAGs with exactly `size` fresh nodes, as (root_type, term) in a fixed order; optionally one shard."""
     opts = opts or DEFAULT_OPTS
+
+    def sh(it):
+        for i, x in enumerate(it):
+            if i % nshards == shard:
+                yield x
+
     for rt in root_types:
-        for term, cost, free, _ in gen(rt, size, (), _St(), opts):
+        n = 0
+        for term, cost, free, _ in gen(rt, size, root_scope(opts), _St(), opts, sh if nshards > 1 else _all):
+            if term[0] in ('ref', 'var', 'lit'):
+                # leaves at the root have no first child to shard on
+                n += 1
+                if (n - 1) % nshards != shard:
+                    continue
             if cost == size and term[0] != 'ref':
-                assert not free
+                if opts['agg'] and AGG not in free:
+                    continue   # the aggregation sub-grammar keeps only programs that aggregate
                 yield rt, term
 
 
@@ -153,6 +208,6 @@ def has_sharing(term):
                 return True
             seen.add(t[1])
             return False
-        return any(w(c) for c in t[1:] if isinstance(c, tuple))
+        return any([w(c) for c in t[1:] if isinstance(c, tuple)])
 
     return w(term)
